@@ -57,6 +57,8 @@ def run_mutant(patch_path, tier="quick", units=None, run_tests=True):
         rec["detected"] = c.returncode == 1 and bool(vio)
         det = [ln.strip() for ln in c.stdout.splitlines() if ln.strip().startswith("oracle=")]
         rec["oracles"] = [d.split(" ")[0] for d in det]
+        # how many runs of the batch failed: a change caught by a handful of runs only is caught by luck of the seed
+        rec["runs_failing"] = sum(int(d.split("runs_failing=")[1].split(" ")[0]) for d in det if "runs_failing=" in d)
         if c.returncode not in (0, 1):
             rec["detail"] = (c.stdout + c.stderr)[-600:]
         return rec
